@@ -6,7 +6,7 @@ from engine import cside, overlay
 from engine.verdict import Ob
 from engine.checks import c_common
 
-FUNCS = ['symm', 'trisc', 'triusc', 'pack', 'unpack', 'sdot']
+FUNCS = ['symm', 'trisc', 'triusc', 'pack', 'unpack', 'sdot', 'pack2']
 KINDS = ('kernel-definition', 'loop-invariant', 'iteration-space',
          'accumulate', 'covered')
 ROOT = os.path.dirname(os.path.dirname(os.path.dirname(
@@ -181,7 +181,7 @@ def run(report, tier, seed):
         'block, each entry once, inside the block, and that unpack undoes '
         'pack.')
     report.not_decided += [
-        'scale, scale2, sprod, sinv, max_step, pack2: value '
+        'scale, scale2, sprod, sinv, max_step: value '
         'identities through data-dependent floating-point arithmetic '
         '(scale/inverse, sinv/sprod, <Wx,y> = <x,W\'y>, max_step '
         'minimality, eigen-decomposition); sgemv, snrm2, jdot, jnrm2, ssqr are '
